@@ -657,6 +657,21 @@ func (fc *fileCtx) visit(n ast.Node, parent ast.Node, d int) {
 			} else {
 				fc.warn(n.Pos(), "math/rand."+n.Sel.Name+" left outside the seam")
 			}
+		case "crypto/rand":
+			switch n.Sel.Name {
+			case "Read":
+				fc.replace(n.Pos(), n.End(), "simrt.CryptoRead", d, false)
+				fc.markRewritten(local)
+				fc.count("crypto/rand.Read")
+			case "Reader":
+				fc.replace(n.Pos(), n.End(), "simrt.CryptoReader", d, false)
+				fc.markRewritten(local)
+				fc.count("crypto/rand.Reader")
+			case "Text":
+				fc.replace(n.Pos(), n.End(), "simrt.CryptoText", d, false)
+				fc.markRewritten(local)
+				fc.count("crypto/rand.Text")
+			}
 		case "io":
 			switch n.Sel.Name {
 			case "Pipe", "PipeReader", "PipeWriter":
